@@ -127,17 +127,18 @@ inductive Msg where
   | stats (p : Part)
   | other                    -- any other switch-to-controller message
 
-def deliver (c : Conn) : Msg → Conn × Out
-  | .port m => ({ c with view := PortView.step c.view m }, .quiet)
-  | .stats p => let r := incoming c.pending p; ({ c with pending := r.1 }, r.2)
-  | .other => (c, .quiet)
+/-- what handling one message raises: `raw` is the `RawStatsReply(con, msg)` that `handle_STATS_REPLY` :176-181 raises for the
+message itself before it calls `_incoming_stats_reply`; `out` is the aggregated event (or exception) of the assembly -/
+structure Step where
+  raw : Option Part
+  out : Out
 
-/-- `handle_STATS_REPLY` :176-181 first raises `RawStatsReply(con, msg)` for the message itself, whatever the assembly state -/
-def rawOf : Msg → Option Part
-  | .stats p => some p
-  | _ => none
+def deliver (c : Conn) : Msg → Conn × Step
+  | .port m => ({ c with view := PortView.step c.view m }, ⟨none, .quiet⟩)
+  | .stats p => let r := incoming c.pending p; ({ c with pending := r.1 }, ⟨some p, r.2⟩)
+  | .other => (c, ⟨none, .quiet⟩)
 
-def runConn (c : Conn) : List Msg → Conn × List Out
+def runConn (c : Conn) : List Msg → Conn × List Step
   | [] => (c, [])
   | m :: ms =>
     let r := deliver c m
